@@ -31,11 +31,16 @@ func (tg *ThreadGroup) Add() (func(), error) {
 	defer tg.mu.Unlock()
 	select {
 	case <-tg.closed:
+		verifEvent("tg.add", verifID(tg), 0)
 		return nil, ErrClosed
 	default:
 	}
 	tg.wg.Add(1)
-	return func() { tg.wg.Done() }, nil
+	verifEvent("tg.add", verifID(tg), 1)
+	return func() {
+		verifEvent("tg.done", verifID(tg), 0)
+		tg.wg.Done()
+	}, nil
 }
 
 // WithContext returns a copy of the parent context. The returned context will
@@ -79,11 +84,14 @@ func (tg *ThreadGroup) Stop() {
 	tg.mu.Lock()
 	select {
 	case <-tg.closed:
+		verifEvent("tg.stop", verifID(tg), 0)
 	default:
 		close(tg.closed)
+		verifEvent("tg.stop", verifID(tg), 1)
 	}
 	tg.mu.Unlock()
 	tg.wg.Wait()
+	verifEvent("tg.stopped", verifID(tg), 0)
 }
 
 // New creates a new threadgroup
